@@ -34,7 +34,7 @@ func (c *executionContext) Error() error {
 func (c *executionContext) Report(e error) {
 	c.lock.Lock()
 	defer c.lock.Unlock()
-	if c.lastError != nil {
+	if c.lastError == nil {
 		c.lastError = e
 	}
 }
@@ -138,5 +138,5 @@ func (t *transition) executeTxsConcurrent(level int, l module.TransactionList, c
 	if wvs := ctx.WorldVirtualState(); wvs != nil {
 		wvs.Realize()
 	}
-	return nil
+	return ec.Error()
 }
